@@ -66,6 +66,9 @@ func main() {
 		if err := genNames(host, facts); err != nil {
 			fatal(err)
 		}
+		if err := genUnpack(host, facts); err != nil {
+			fatal(err)
+		}
 	}
 	if sel("skeletons") {
 		if err := genSkeletons(host, facts); err != nil {
